@@ -101,3 +101,14 @@ Example flag_outside_mixture :
   map (fun o => let '(q, d, _, _) := o in d) (cs_obs c) = [false] /\
   decide_p polA (QCovert 1) = true /\ decide_p polB (QCovert 1) = true.
 Proof. vm_compute. repeat split; reflexivity. Qed.
+
+(* the pipeline-launched states: 1..9 workers give a job buffer of capacity 0; the float ratio printed by
+   RegistrationManager.PrintAndReset survives it, the integer ratio of seeded change C19e does not *)
+Definition few_workers : raw := mkRaw Unset Unset Unset Unset (Valid 5) Unset None None None None Unset Unset false.
+Example few_workers_zero_buffer :
+  exists m, start (Decoded few_workers) (SubOk [1]) = Ok m /\ m_pipe (launch m) = Some 0 /\
+            housekeeping (launch m) = Ok tt /\ int_ratio 0 0 = Panic.
+Proof. eexists. vm_compute. repeat split; reflexivity. Qed.
+Example pipe_caps :
+  map pipe_cap [(-50); (-3); 0; 1; 9; 10; 100]%Z = [30; 30; 30; 0; 0; 1; 10].
+Proof. vm_compute. reflexivity. Qed.
